@@ -5,9 +5,9 @@
    - tables are functions row -> column -> cell, equality is pointwise;
    - n_added_records are unbounded Z (3.1); stores into the uint32/uint8 arrays carry their wrap;
    - `bucket row key` stands for fasthash64(key,row) % width on the *already truncated* key;
-   - `default_thr n` stands for np.uint32(self.phi * n) (binary64 product, truncated); the
-     theorems hold for every such function, the executable instance over PrimFloat is
-     float_default_thr at the end of the file. *)
+   - `default_thr n` stands for the integer part of the binary64 product self.phi * n (the cast
+     np.uint32(...) is the wrap32 in thr_of); the theorems hold for every such function, the
+     executable instance over PrimFloat is float_default_thr at the end of the file. *)
 From Coq Require Import ZArith List Bool Floats.PrimFloat Floats.SpecFloat Floats.FloatOps Uint63.
 From Sketchnu Require Import Machine Consts Ngram.
 Import ListNotations.
@@ -121,8 +121,8 @@ Definition cell_merge (a b : cell) : cell :=
 
 (* _merge l.176-214 (rows and columns are independent), merge l.559-597 after the guard *)
 Definition hh_merge (s o : sketch) : sketch :=
-  mkSk (fun r c => if (r <? depth)%nat && (c <? width)%nat
-                   then cell_merge (tab s r c) (tab o r c) else tab s r c)
+  mkSk (fun r c => let a := tab s r c in      (* bound once: closure chains are walked once per read *)
+                   if (r <? depth)%nat && (c <? width)%nat then cell_merge a (tab o r c) else a)
        (n_added s + n_added o) (n_records s + n_records o)
        (cand s) (n_added_sort s) (thr_sort s).
 
@@ -154,10 +154,10 @@ Definition gen_cands (t : table) (thr : Z) : cands :=
 
 (* l.444-447 / 745-748: threshold conversion *)
 Definition thr_of (s : sketch) (thr : option Z) : Z :=
-  match thr with
-  | None => default_thr (n_added s)
-  | Some t => wrap32 t
-  end.
+  wrap32 (match thr with
+          | None => default_thr (n_added s)      (* np.uint32(self.phi * self.n_added()) *)
+          | Some t => t                           (* np.uint32(threshold) *)
+          end).
 
 (* generate_candidate_set l.728-777 *)
 Definition hh_generate (s : sketch) (thr : option Z) : sketch :=
@@ -261,13 +261,14 @@ Definition truth (h : hist) (x : key) : Z := wsum (fun k => keqb (ident k) x) (l
 Definition mass (h : hist) (r c : nat) : Z := wsum (fun k => (bucket r (ident k) =? c)%nat) (leaves h).
 Definition total (h : hist) : Z := wsum (fun _ => true) (leaves h).
 
-(* well formed: multiplicities are non-negative (shape agreement of merged sketches is built in:
-   width, depth and max_key_len are parameters of the section) *)
+(* well formed: multiplicities are non-negative and keys are shorter than 2^64 bytes, the range of
+   np.uint64(len(key)) (shape agreement of merged sketches is built in: width, depth and
+   max_key_len are section variables) *)
 Fixpoint wf (h : hist) : Prop :=
   match h with
   | HEmpty => True
-  | HAdd h _ v => wf h /\ 0 <= v
-  | HNgram h _ _ => wf h
+  | HAdd h k v => wf h /\ 0 <= v /\ zlen k < 2^64
+  | HNgram h k _ => wf h /\ zlen k < 2^64
   | HMerge h1 h2 => wf h1 /\ wf h2
   | HSaveLoad h => wf h
   | HQuery h _ => wf h
@@ -276,6 +277,11 @@ Fixpoint wf (h : hist) : Prop :=
 
 (* the cache-free view used by C03/C04: stored key of a cell *)
 Definition stored (cl : cell) : key := firstn (Z.to_nat (klen cl)) (ckey cl).
+
+(* a state is reachable when some well formed history produces it *)
+Definition reachable (st : sketch) : Prop := exists h, wf h /\ st = eval h.
+(* potential of key x in a cell (C04): +count when the cell stores x, -count otherwise *)
+Definition phi (x : key) (cl : cell) : Z := if keqb x (stored cl) then cnt cl else - cnt cl.
 
 (* harness helper: tabulate a table so that closure chains do not grow with the history *)
 Definition hh_freeze (s : sketch) : sketch :=
@@ -286,8 +292,9 @@ Definition hh_freeze (s : sketch) : sketch :=
 End HH.
 
 (* ---- executable default threshold: np.uint32(np.float64 phi * np.uint64 n) ----
-   binary64 product (PrimFloat, bit exact), truncation toward zero, then the C cast
-   float64 -> uint32 as observed on this platform for values below 2^63 (wraps modulo 2^32) *)
+   binary64 product (PrimFloat, bit exact) and truncation toward zero; the C cast
+   float64 -> uint32, as observed on this platform for values below 2^63, wraps modulo 2^32
+   (the wrap32 of thr_of) *)
 Definition float_trunc (f : float) : Z :=
   match Prim2SF f with
   | S754_finite s m e =>
@@ -296,7 +303,7 @@ Definition float_trunc (f : float) : Z :=
   | _ => 0
   end.
 Definition float_default_thr (phi : float) (n : Z) : Z :=
-  wrap32 (float_trunc (PrimFloat.mul phi (PrimFloat.of_uint63 (Uint63.of_Z n)))).
+  float_trunc (PrimFloat.mul phi (PrimFloat.of_uint63 (Uint63.of_Z n))).
 
 (* ---- harness-facing runner: a program over up to four sketches (registers) ----
    numbers in case files are primitive 63-bit integers (fast to parse); big values are
